@@ -41,6 +41,7 @@ func init() {
 			{Name: "forget ElseList in visitBranchNode", File: "utils/visitor.go", Old: "\tif branchNode.ElseList != nil {\n\t\tvc.visitNode(branchNode.ElseList)\n\t}\n", New: "", Rule: "C20.fields"},
 			{Name: "visit ternary Left twice", File: "utils/visitor.go", Old: "\tvc.visitNode(ternaryExprNode.Right)\n", New: "\tvc.visitNode(ternaryExprNode.Left)\n", Rule: "C20.fields"},
 			{Name: "forget call arguments", File: "utils/visitor.go", Old: "\tvc.visitNode(callExprNode.BaseExpr)\n\tfor _, node := range callExprNode.Exprs {\n\t\tvc.visitNode(node)\n\t}\n", New: "\tvc.visitNode(callExprNode.BaseExpr)\n", Rule: "C20.fields"},
+			{Name: "range stores the ranged-over expression both in Set and in Expression (agent seed C20/4)", File: "parse.go", Old: "\t\t} else {\n\t\t\texpression = nil\n\t\t}\n\t}\n\n\tt.expectRightDelim(context)", New: "\t\t} else {\n\t\t\texpression = set.Right[0]\n\t\t}\n\t}\n\n\tt.expectRightDelim(context)", Rule: "C20.walk"},
 			{Name: "Walk starts at the first statement only", File: "utils/visitor.go", Old: "v.Visit(VisitorContext{Visitor: v}, t.Root)", New: "v.Visit(VisitorContext{Visitor: v}, t.Root.Nodes[0])", Rule: "C20.walk"},
 			{Name: "new node type without visitor support", File: "node.go", Old: "type ReturnNode struct {", New: "type DebugNode struct {\n\tNodeBase\n\tValue Expression\n}\n\nfunc (n *DebugNode) String() string { return \"debug\" }\n\nfunc (t *Template) newDebug(v Expression) *DebugNode { return &DebugNode{Value: v} }\n\ntype ReturnNode struct {", Rule: "C20.cases"},
 			{Name: "new child field without visitor support", File: "node.go", Old: "type ReturnNode struct {\n\tNodeBase\n\tValue Expression\n", New: "type ReturnNode struct {\n\tNodeBase\n\tValue Expression\n\tExtra Expression\n", Rule: "C20.fields"},
@@ -206,6 +207,7 @@ func runC20(c *an.Ctx) {
 		}
 		return true
 	})
+	c20noShare(c)
 	c.Check(okWalk, "C20.walk", "utils.Walk/start", walk.Pos(), "Walk hands t.Root to Visitor.Visit", "Walk does not start the traversal at t.Root through Visitor.Visit")
 }
 
@@ -910,4 +912,100 @@ func (r *c20) collect(h *an.Fn, prefix string, guards []string, seen map[*an.Fn]
 	}
 	_ = rangeOf
 	return out
+}
+
+// c20noShare: "each exactly once" needs a tree — no node reachable through two child fields.  The one
+// place where the parser derives one child from another is parseControl: when the header is an assignment
+// the *SetNode is taken out of the header expression, and the expression result must then be replaced
+// by nil or by a freshly parsed expression before it is returned next to the set.
+func c20noShare(c *an.Ctx) {
+	p := c.P
+	f := c.Fn("C20.walk", "(*Template).parseControl")
+	if f == nil {
+		return
+	}
+	info := f.Info()
+	if f.Sig == nil || f.Sig.Results().Len() < 4 {
+		c.Anchor("C20.walk", "results (pos, line, set, expression, …) of parseControl")
+		return
+	}
+	// roles by type: the *SetNode result and the Expression result
+	var setVar, exprVar *types.Var
+	for i := 0; i < f.Sig.Results().Len(); i++ {
+		v := f.Sig.Results().At(i)
+		switch an.TypeName(v.Type()) {
+		case "*jet.SetNode":
+			setVar = v
+		case "jet.Expression":
+			exprVar = v
+		}
+	}
+	if setVar == nil || exprVar == nil || setVar.Name() == "" || exprVar.Name() == "" {
+		c.Anchor("C20.walk", "named *SetNode and Expression results of parseControl")
+		return
+	}
+	mentions := func(e ast.Expr, v *types.Var) bool {
+		found := false
+		if e == nil {
+			return false
+		}
+		ast.Inspect(e, func(n ast.Node) bool {
+			if id, ok := n.(*ast.Ident); ok && an.ObjOf(info, id) == types.Object(v) {
+				found = true
+			}
+			return !found
+		})
+		return found
+	}
+	hooks := an.Hooks{PreAssign: func(x *an.Explorer, lhs, rhs ast.Expr, stmt ast.Node, st *an.State) {
+		id, ok := an.Unparen(lhs).(*ast.Ident)
+		if !ok {
+			return
+		}
+		switch an.ObjOf(info, id) {
+		case types.Object(setVar):
+			if mentions(rhs, exprVar) {
+				st.Set("shared", "1") // set is (part of) the header expression
+			} else {
+				st.Set("shared", "")
+			}
+		case types.Object(exprVar):
+			switch {
+			case rhs == nil:
+				st.Set("shared", "1") // multi-value definition: unknown origin
+			case mentions(rhs, setVar):
+				st.Set("shared", "1")
+			default:
+				if tv, ok := info.Types[rhs]; ok && tv.IsNil() {
+					st.Set("shared", "")
+				} else if call, ok := an.Unparen(rhs).(*ast.CallExpr); ok && p.FnByObj[an.Callee(info, call)] != nil {
+					st.Set("shared", "") // a freshly parsed expression
+				}
+			}
+		}
+	}}
+	x := p.NewExplorer(f, hooks)
+	x.Run(nil)
+	c.States += x.Visited
+	c.FnsAnalysed[f.Name] = true
+	ok, nRet := true, 0
+	var trail []string
+	for _, e := range x.Exits {
+		if e.Kind != an.ExitReturn {
+			continue
+		}
+		nRet++
+		if e.State.Get("shared") != "" {
+			ok, trail = false, e.Trail
+		}
+	}
+	if nRet == 0 {
+		c.Undecided("C20.walk", "(*Template).parseControl/no-shared-child", f.Pos(), "no return reached")
+		return
+	}
+	if ok {
+		c.OK("C20.walk", "(*Template).parseControl/no-shared-child", f.Pos(), "when the header is an assignment the expression returned next to it is nil or freshly parsed")
+	} else {
+		c.Bad("C20.walk", "(*Template).parseControl/no-shared-child", f.Pos(), trail, "parseControl can return an expression that is (part of) the assignment it returns as the branch's Set: the subtree hangs below two fields of the if/range node and the visitor reaches it twice")
+	}
 }
